@@ -127,7 +127,8 @@ func c15Apply(lru *LRUCache, m *c15Model, op c15Op) (applicable bool, problem st
 				return false, ""
 			}
 		} else {
-			n = &btreeNode{fileOffset: uint64(op.key), dirty: op.kind == 1}
+			// (leaves and interior pages alternate by key: the kind of a page is none of the cache's business)
+			n = &btreeNode{fileOffset: uint64(op.key), dirty: op.kind == 1, isLeaf: op.key%2 == 1}
 		}
 		got := lru.set(op.key, n)
 		want, evicted := m.set(op.key, n)
